@@ -39,6 +39,9 @@ def gen(c):
         ny = ny | 1
     spec = M.random_spec(rng, half=half, nx=2, ny=ny)
     spec.update(root_chord=float(np.round(max(spec["root_chord"], spec["span"] / 9.0), 3)), taper=max(spec["taper"], 0.5), camber=0.0)
+    flat = bool(c["seed"] % 3 == 0)
+    if flat:
+        spec.update(twist_tip_deg=0.0)  # with zero twist and alpha = 0 every panel force is exactly zero: a special point of the pool
     s = dict(name="wing", symmetry=symc, mesh=spec, with_viscous=True, with_wave=True, twist_cp=[1.0, 2.0], t_over_c_cp=[0.12])
     pts = []
     if model == "aero":
@@ -49,6 +52,8 @@ def gen(c):
         for k in range(c["npoints"]):
             pts.append({"alpha": float(np.round(rng.uniform(0, 8), 2)), "Mach_number": [0.55, 0.93, 0.7, 0.9][k % 4], "v": float(rng.uniform(100, 250)),
                         "wing.twist_cp": [float(x) for x in np.round(rng.uniform(-3, 3, 2), 2)], "cg": [float(x) for x in np.round(rng.uniform(-1, 1, 3), 2)]})
+        if flat:
+            pts[-1].update({"alpha": 0.0, "wing.twist_cp": [0.0, 0.0]})
         of = ["aero.CL", "aero.CD", "aero.CM", "aero.total_perf.moment.M", "aero.wing_perf.CDw", "aero.wing_perf.CDv"]
         wrt = ["alpha", "Mach_number", "wing.twist_cp", "v", "cg", "re"]
         return "aero", case, pts, of, wrt
@@ -86,7 +91,9 @@ def gen(c):
         case = dict(surface=s, load_seed=int(rng.integers(1 << 30)), **extra)
         tkk = tk.replace("wing.", "")
         for k in range(c["npoints"]):
-            pts.append(dict({tkk: tv(), "load_factor": float(rng.choice([1.0, 2.5]))}, **pm_point(k)))
+            pts.append(dict({tkk: tv(), "load_factor": float(rng.choice([1.0, 2.5])) if k != 1 else 0.0}, **pm_point(k)))
+        if npm:
+            pts[-1]["point_masses"] = [0.0] * npm  # special values: no mass, no inertial load
         of = ["failure", "structural_mass", "disp"]
         wrt = [tkk, "loads"]
         return "struct", case, pts, of, wrt
@@ -360,8 +367,11 @@ def run_history(c, o):
                 comps = [s for s in live.model.system_iter(recurse=True, typ=Component) if type(s).__module__.startswith("openaerostruct")]
                 # two components known to keep state between calls plus two arbitrary ones
                 stateful = [i for i, s_ in enumerate(comps) if type(s_).__name__ in STATEFUL]
-                sel = list(rng.choice(stateful, size=min(2, len(stateful)), replace=False)) if stateful else []
-                sel += [int(i) for i in rng.choice(len(comps), size=min(2, len(comps)), replace=False) if i not in sel]
+                if rng.random() < 0.35:
+                    sel = list(range(len(comps)))  # the whole model, as a user calling prob.check_partials() would
+                else:
+                    sel = list(rng.choice(stateful, size=min(2, len(stateful)), replace=False)) if stateful else []
+                    sel += [int(i) for i in rng.choice(len(comps), size=min(2, len(comps)), replace=False) if i not in sel]
                 # components whose own check options force finite differences get their constant sub-Jacobians overwritten by the
                 # framework with FD estimates: remember them, their constants (and totals through them) are no longer exact
                 method = "fd" if rng.random() < 0.5 else "cs"
@@ -377,6 +387,13 @@ def run_history(c, o):
                         ops[-1] = "check_partials_failed:" + type(e).__name__
                 # the framework restores inputs and outputs: the problem is still at its point
                 observe("check_partials")
+                # ... so a linearisation right now (no re-run) must reproduce the fresh Jacobians
+                with warnings.catch_warnings():
+                    warnings.simplefilter("ignore")
+                    live.model.run_linearize()
+                cmp_dicts(o, "hist/component_jacobians", jacs_live(live, ref[cur]["jac"]), ref[cur]["jac"], tol_jac, tags + ["after=check_partials"],
+                          "component Jacobians linearised right after check_partials (no re-run), history %s" % ops[-6:])
+                nobs += 1
             elif op == "check_totals":
                 with warnings.catch_warnings():
                     warnings.simplefilter("ignore")
